@@ -226,10 +226,15 @@ class LogConfig(object):
             if (var.is_toc_variable() is False):  # Memory location
                 logger.debug('Logging to raw memory %d, 0x%04X',
                              var.get_storage_and_fetch_byte(), var.address)
-                pk.data.append(struct.pack('<B',
-                                           var.get_storage_and_fetch_byte()))
-                pk.data.append(struct.pack('<I', var.address))
+                if pk.available_data_size() < 5:
+                    # Packet is full
+                    return False, i
+                pk.data.append(var.get_storage_and_fetch_byte())
+                pk.data.extend(struct.pack('<I', var.address))
             else:  # Item in TOC
+                if pk.available_data_size() < 1:
+                    # Packet is full
+                    return False, i
                 element_id = self.cf.log.toc.get_element_id(var.name)
                 logger.debug('Adding %s with id=%d and type=0x%02X',
                              var.name,
